@@ -27,7 +27,10 @@ CLAIM = ('The order, confidence and guards of the encoding sources in determineE
          "content / nothing else, only while tentative) equals the standard's; the prescan ends a quoted "
          'attribute value at the quote that opened it; the content-attribute extractor skips white space after '
          '`charset=`. The prescan parses the attributes of start and end tags alike and tests the first byte '
-         'of a tag name; the BOM table holds exactly utf-8, utf-16le and utf-16be.')
+         'of a tag name; the BOM table holds exactly utf-8, utf-16le and utf-16be; BOM sniffing completes short '
+         'reads and seeks by the length of the BOM matched; byte labels are decoded as strict ASCII; an unquoted '
+         'charset value ends at white space or `;`; no exception leaves the content= extractor (it would end the '
+         'whole pre-scan).')
 NOT_DECIDED = ('the rest of the byte-level prescan (comment handling, attribute-name scanning, content= grammar '
                'beyond the clauses above); equality of the tree with the tree of the decoded bytes.')
 MODULES = ["_inputstream.py", "html5parser.py"]
@@ -342,6 +345,11 @@ def run(ctx):
     label_decoding(ctx)
     bom_read_and_seek(ctx)
     content_charset_grammar(ctx)
+    # C06.15: the content= extraction returns "nothing" or a label; an exception leaving it would be taken by getEncoding's
+    # bracket for the end of the buffer and end the whole pre-scan, hiding every later <meta>
+    r.rule("C06.15", "no StopIteration / ValueError leaves ContentAttrParser.parse (it would end the pre-scan instead of moving to the next attribute)", floor=1)
+    from .c03 import prescan_exception_flow
+    prescan_exception_flow(ctx, "C06.15", entries=(("ContentAttrParser", "parse"),), floor_sites=1)
 
 
 def bom_table(ctx):
@@ -660,6 +668,8 @@ def mutants():
                 "        charEncoding = lookupEncoding(self.transport_encoding), \"certain\"\n"
                 "        if charEncoding[0] is not None:\n            return charEncoding\n\n")
     return [
+        T("content-parser-bracket-narrowed", REL, "                    return self.data[oldPosition:]\n        except StopIteration:\n            return None",
+          "                    return self.data[oldPosition:]\n        except ValueError:\n            return None", "C06.15"),
         T("charset-value-no-semicolon-stop", REL, "self.data.skipUntil(spaceCharactersBytes | frozenset([b\";\"]))", "self.data.skipUntil(spaceCharactersBytes)", "C06.14"),
         T("bom-single-read", "_inputstream.py", "        while len(string) < 4:\n            more = self.rawStream.read(4 - len(string))\n            if not more:\n                break\n            string += more\n", "", "C06.13"),
         T("bom-seek-constant", "_inputstream.py", "        encoding = None\n        seek = 0\n        for bom, name in bomDict.items():\n            if string.startswith(bom):\n                encoding = name\n                seek = len(bom)\n                break\n",
